@@ -12,13 +12,10 @@ are used, never unfolded (the tables are unfolded only by the closing `example`s
 namespace JSight.C06
 open JSight Gen
 
-/-- the "path-bearing HTTP method directly under a URL" case, which makes the directive a top-level one
-    (documented language rule) -/
-def hoists (parent d : Dir) : Bool := isHTTPMethod d.kind && d.hasPath && parent.kind == Kind.URL
-
 /-- Declarative placement over the stack of open directives (innermost first):
     among the open directives from the innermost outwards, up to and including the first parenthesised one,
-    the first that admits the kind is the parent; if none admits it and no parenthesised one was met, the
+    the first that admits the directive is the parent (`admitsDir`: its kind admits the kind, and it is not a
+    URL facing an HTTP method with its own path); if none admits it and no parenthesised one was met, the
     directive goes to top level when its kind may stand there; otherwise there is no place. -/
 inductive Where where
   | under (depth : Nat)     -- becomes a child of the open directive at this depth (0 = innermost)
@@ -29,25 +26,32 @@ inductive Where where
 def specWhere : List Dir → Dir → Where
   | [], d => if rootAdmits d.kind then .top else .nowhere
   | p :: rest, d =>
-    if admits p.kind d.kind then .under 0
+    if admitsDir p d then .under 0
     else if p.explicit then .nowhere
     else match specWhere rest d with
       | .under n => .under (n + 1)
       | w => w
 
+/-- the class of the rejection: the open parenthesised directive that stopped the walk (the innermost one)
+    would have admitted the kind, and only the path rule refused it — or plain incorrect context -/
+def specErr (ds : List Dir) (d : Dir) : CtxErr :=
+  match ds.find? (·.explicit) with
+  | some p => if admits p.kind d.kind then .pathMethodInExplicit d.id else .incorrectContext d.id
+  | none => .incorrectContext d.id
+
 /-! ### the declarative rule, characterised -/
 
-/-- `specWhere` names depth `n` exactly when the open directive there admits the kind and every open
-    directive inside it neither admits the kind nor is parenthesised -/
+/-- `specWhere` names depth `n` exactly when the open directive there admits the directive and every open
+    directive inside it neither admits it nor is parenthesised -/
 theorem specWhere_under_iff (ds : List Dir) (d : Dir) (n : Nat) :
     specWhere ds d = .under n ↔
-      ∃ p, ds[n]? = some p ∧ admits p.kind d.kind = true ∧
-        ∀ q ∈ ds.take n, admits q.kind d.kind = false ∧ q.explicit = false := by
+      ∃ p, ds[n]? = some p ∧ admitsDir p d = true ∧
+        ∀ q ∈ ds.take n, admitsDir q d = false ∧ q.explicit = false := by
   induction ds generalizing n with
   | nil => simp only [specWhere]; split <;> simp
   | cons p rest ih =>
     simp only [specWhere]
-    cases ha : admits p.kind d.kind with
+    cases ha : admitsDir p d with
     | true =>
       cases n with
       | zero => simp [ha]
@@ -75,15 +79,15 @@ theorem specWhere_under_iff (ds : List Dir) (d : Dir) (n : Nat) :
           | nowhere => rw [hs] at this; simp at this ⊢; simpa [ha, hx] using this
 
 /-- `specWhere` names the top level exactly when the kind may stand there and no open directive admits
-    the kind or is parenthesised -/
+    the directive or is parenthesised -/
 theorem specWhere_top_iff (ds : List Dir) (d : Dir) :
     specWhere ds d = .top ↔
-      rootAdmits d.kind = true ∧ ∀ q ∈ ds, admits q.kind d.kind = false ∧ q.explicit = false := by
+      rootAdmits d.kind = true ∧ ∀ q ∈ ds, admitsDir q d = false ∧ q.explicit = false := by
   induction ds with
   | nil => simp only [specWhere]; split <;> simp [*]
   | cons p rest ih =>
     simp only [specWhere]
-    cases ha : admits p.kind d.kind with
+    cases ha : admitsDir p d with
     | true => simp [ha]
     | false =>
       cases hx : p.explicit with
@@ -95,61 +99,58 @@ theorem specWhere_top_iff (ds : List Dir) (d : Dir) :
         | top => rw [hs] at ih; simp at ih ⊢; simpa [ha, hx] using ih
         | nowhere => rw [hs] at ih; simp at ih ⊢; simpa [ha, hx] using ih
 
+/-- what `admitsDir` says, in the words of the tables: the kind is admitted, and the pair is not
+    "HTTP method with its own path, under a URL" -/
+theorem admitsDir_iff (p d : Dir) :
+    admitsDir p d = true ↔
+      admits p.kind d.kind = true ∧ ¬ (isHTTPMethod d.kind = true ∧ d.hasPath = true ∧ p.kind = Kind.URL) := by
+  simp only [admitsDir, pathMethodUnderURL]
+  cases admits p.kind d.kind <;> cases isHTTPMethod d.kind <;> cases d.hasPath <;>
+    by_cases hk : p.kind = Kind.URL <;> simp [hk]
+
 /-! ### placement -/
 
-/-- `place_cons` restated with `hoists` -/
+/-- `place_cons` with the path rule spelled out -/
 theorem place_cons' (f : Frame) (below : List Frame) (roots : List Tree) (d : Dir) :
     place (f :: below) roots d =
-      if admits f.d.kind d.kind then
-        if hoists f.d d then
-          if anyExplicit (f :: below) then .error (.pathMethodInExplicit d.id)
-          else .ok { frames := [{ d := d }], roots := closeAll (f :: below) roots }
-        else .ok { frames := { d := d } :: f :: below, roots := roots }
-      else if f.d.explicit then .error (.incorrectContext d.id)
+      if admits f.d.kind d.kind && !(isHTTPMethod d.kind && d.hasPath && f.d.kind == Kind.URL) then
+        .ok { frames := { d := d } :: f :: below, roots := roots }
+      else if f.d.explicit then
+        (if admits f.d.kind d.kind then .error (.pathMethodInExplicit d.id) else .error (.incorrectContext d.id))
       else place (pop f below roots).1 (pop f below roots).2 d :=
   place_cons f below roots d
 
-/-- (1) the loop finds the place the declarative rule names -/
+/-- (1) the loop succeeds exactly when the declarative rule names a place -/
 theorem place_ok_iff (frames : List Frame) (roots : List Tree) (d : Dir) :
-    (∃ c, place frames roots d = .ok c) ↔
-      (match specWhere (frames.map (·.d)) d with
-       | .nowhere => False
-       | .top => True
-       | .under n => ∀ p, (frames.map (·.d))[n]? = some p → hoists p d = true → anyExplicit frames = false) := by
+    (∃ c, place frames roots d = .ok c) ↔ specWhere (frames.map (·.d)) d ≠ .nowhere := by
   induction frames, roots using frames_ind with
   | nil roots =>
     rw [place_nil]
     simp only [List.map_nil, specWhere]
     split <;> simp
   | cons f below roots ih =>
-    rw [place_cons']
+    rw [place_cons]
     simp only [List.map_cons, specWhere]
-    cases ha : admits f.d.kind d.kind with
-    | true =>
-      cases hh : hoists f.d d with
-      | true => cases hx : anyExplicit (f :: below) <;> simp [hh]
-      | false => simp [hh]
+    cases ha : admitsDir f.d d with
+    | true => simp
     | false =>
       cases hx : f.d.explicit with
-      | true => simp
+      | true => simp only [Bool.false_eq_true, ↓reduceIte]; split <;> simp
       | false =>
         simp only [Bool.false_eq_true, ↓reduceIte]
-        rw [ih, pop_map_d, pop_anyExplicit, anyExplicit_cons]
+        rw [ih, pop_map_d]
         cases specWhere (List.map (fun x => x.d) below) d with
-        | under n => simp [hx]
+        | under n => simp
         | top => simp
         | nowhere => simp
 
 /-- (2) on success the new directive is the innermost open one, and the open directives below it are exactly
-    the old ones from the parent outwards (none for top level / a hoisted method) -/
+    the old ones from the parent outwards (none for top level) -/
 theorem place_frames (frames : List Frame) (roots : List Tree) (d : Dir) (c : Ctx)
     (h : place frames roots d = .ok c) :
     c.frames.map (·.d) =
       match specWhere (frames.map (·.d)) d with
-      | .under n =>
-        (match (frames.map (·.d))[n]? with
-         | some p => if hoists p d then [d] else d :: (frames.map (·.d)).drop n
-         | none => [d])
+      | .under n => d :: (frames.map (·.d)).drop n
       | _ => [d] := by
   induction frames, roots using frames_ind with
   | nil roots =>
@@ -159,24 +160,18 @@ theorem place_frames (frames : List Frame) (roots : List Tree) (d : Dir) (c : Ct
     · cases h; simp [*]
     · cases h
   | cons f below roots ih =>
-    rw [place_cons'] at h
+    rw [place_cons] at h
     simp only [List.map_cons, specWhere]
-    cases ha : admits f.d.kind d.kind with
+    cases ha : admitsDir f.d d with
     | true =>
       simp only [ha, ↓reduceIte] at h ⊢
-      cases hh : hoists f.d d with
-      | true =>
-        simp only [hh, ↓reduceIte] at h
-        split at h
-        · cases h
-        · cases h; simp [hh]
-      | false =>
-        simp only [hh, Bool.false_eq_true, ↓reduceIte] at h
-        cases h; simp [hh]
+      cases h; simp
     | false =>
       simp only [ha, Bool.false_eq_true, ↓reduceIte] at h ⊢
       cases hx : f.d.explicit with
-      | true => simp [hx] at h
+      | true =>
+        simp only [hx, ↓reduceIte] at h
+        split at h <;> cases h
       | false =>
         simp only [hx, Bool.false_eq_true, ↓reduceIte] at h ⊢
         rw [ih h, pop_map_d]
@@ -194,19 +189,11 @@ theorem place_keeps_explicit (frames : List Frame) (roots : List Tree) (d : Dir)
   | cons f0 below roots ih =>
     rw [place_cons] at h
     split at h
+    · cases h
+      simp only [List.map_cons] at hf ⊢
+      exact List.mem_cons_of_mem _ hf
     · split at h
-      · split at h
-        · cases h
-        · rename_i hne
-          exfalso
-          apply hne
-          rw [anyExplicit_eq, List.any_eq_true]
-          exact ⟨f, hf, hx⟩
-      · cases h
-        simp only [List.map_cons] at hf ⊢
-        exact List.mem_cons_of_mem _ hf
-    · split at h
-      · cases h
+      · split at h <;> cases h
       · rename_i hne
         apply ih h
         rw [pop_map_d]
@@ -215,42 +202,82 @@ theorem place_keeps_explicit (frames : List Frame) (roots : List Tree) (d : Dir)
         · exact absurd hx hne
         · exact hf
 
-/-- (4) rejection: exactly when the declarative rule finds no place (or the hoist meets an open parenthesis) -/
+/-- (4) rejection: exactly when the declarative rule finds no place -/
 theorem place_error_iff (frames : List Frame) (roots : List Tree) (d : Dir) :
-    (∃ e, place frames roots d = .error e) ↔ ¬ (∃ c, place frames roots d = .ok c) := by
-  cases place frames roots d <;> simp
+    (∃ e, place frames roots d = .error e) ↔ specWhere (frames.map (·.d)) d = .nowhere := by
+  have h := place_ok_iff frames roots d
+  cases hp : place frames roots d with
+  | ok c =>
+    rw [hp] at h
+    have := h.mp ⟨c, rfl⟩
+    simp [this]
+  | error e =>
+    rw [hp] at h
+    simp only [reduceCtorEq, exists_false, ne_eq, false_iff, Decidable.not_not] at h
+    simp [h]
 
-/-- (4') the rejection stated directly against the declarative rule -/
-theorem place_error_iff_spec (frames : List Frame) (roots : List Tree) (d : Dir) :
-    (∃ e, place frames roots d = .error e) ↔
-      (match specWhere (frames.map (·.d)) d with
-       | .nowhere => True
-       | .top => False
-       | .under n => ∃ p, (frames.map (·.d))[n]? = some p ∧ hoists p d = true ∧ anyExplicit frames = true) := by
-  rw [place_error_iff, place_ok_iff]
-  cases specWhere (frames.map (·.d)) d with
-  | under n =>
-    simp only []
-    cases hq : (frames.map (·.d))[n]? with
-    | none => simp
-    | some p =>
-      cases hh : hoists p d with
-      | false =>
-        constructor
-        · intro hn; exact absurd (fun q hq' hh' => by cases hq'; rw [hh] at hh'; cases hh') hn
-        · rintro ⟨q, hq', hh', _⟩; cases hq'; rw [hh] at hh'; cases hh'
+/-- (4') the rejection with its class: `place` fails with `e` exactly when the declarative rule finds no place
+    and `e` is the class `specErr` — `pathMethodInExplicit` when the innermost open parenthesised directive
+    admits the kind (so only the path rule refused the directive), `incorrectContext` otherwise -/
+theorem place_error_iff_spec (frames : List Frame) (roots : List Tree) (d : Dir) (e : CtxErr) :
+    place frames roots d = .error e ↔
+      specWhere (frames.map (·.d)) d = .nowhere ∧ e = specErr (frames.map (·.d)) d := by
+  induction frames, roots using frames_ind with
+  | nil roots =>
+    rw [place_nil]
+    simp only [List.map_nil, specWhere, specErr, List.find?_nil]
+    split <;> simp [eq_comm]
+  | cons f below roots ih =>
+    rw [place_cons]
+    simp only [List.map_cons, specWhere, specErr]
+    cases ha : admitsDir f.d d with
+    | true => simp
+    | false =>
+      cases hx : f.d.explicit with
       | true =>
-        cases hx : anyExplicit frames with
-        | false =>
-          constructor
-          · intro hn; exact absurd (fun _ _ _ => rfl) hn
-          · rintro ⟨_, _, _, h⟩; cases h
-        | true =>
-          constructor
-          · intro _; exact ⟨p, rfl, hh, rfl⟩
-          · intro _ hn; exact absurd (hn p rfl hh) (by simp)
-  | top => simp
-  | nowhere => simp
+        simp only [Bool.false_eq_true, ↓reduceIte, List.find?_cons, hx, true_and]
+        split <;> simp [eq_comm]
+      | false =>
+        simp only [Bool.false_eq_true, ↓reduceIte, List.find?_cons, hx]
+        rw [ih, pop_map_d, specErr]
+        cases specWhere (List.map (fun x => x.d) below) d with
+        | under n => simp
+        | top => simp
+        | nowhere => simp
+
+/-- the open parenthesised directive blamed by `specErr` is the one that stopped the walk: when the rule finds
+    no place and a parenthesised directive is open, every open directive up to and including the innermost
+    parenthesised one refuses the directive -/
+theorem specWhere_nowhere_blocked (ds : List Dir) (d : Dir) (p : Dir)
+    (h : specWhere ds d = .nowhere) (hp : ds.find? (·.explicit) = some p) :
+    admitsDir p d = false ∧ ∀ q ∈ ds.takeWhile (fun q => !q.explicit), admitsDir q d = false := by
+  induction ds with
+  | nil => simp at hp
+  | cons q rest ih =>
+    simp only [specWhere] at h
+    cases ha : admitsDir q d with
+    | true => simp [ha] at h
+    | false =>
+      cases hx : q.explicit with
+      | true =>
+        simp only [List.find?_cons, hx, Option.some.injEq] at hp
+        subst hp
+        simp [ha, hx]
+      | false =>
+        simp only [ha, hx, Bool.false_eq_true, ↓reduceIte] at h
+        simp only [List.find?_cons, hx] at hp
+        have hs : specWhere rest d = .nowhere := by
+          cases hw : specWhere rest d with
+          | under n => rw [hw] at h; cases h
+          | top => rw [hw] at h; cases h
+          | nowhere => rfl
+        have := ih hs hp
+        refine ⟨this.1, ?_⟩
+        intro r hr
+        simp only [List.takeWhile_cons, hx, Bool.not_false, ↓reduceIte, List.mem_cons] at hr
+        rcases hr with rfl | hr
+        · exact ha
+        · exact this.2 r hr
 
 /-! ### ")" and end of input -/
 
@@ -314,27 +341,44 @@ private def body : Dir := { kind := .Body, id := 4 }
 private def getP : Dir := { kind := .Get, hasPath := true, id := 5 }
 private def urlX : Dir := { kind := .URL, explicit := true, id := 6 }
 private def ty : Dir := { kind := .Type, id := 7 }
+private def mac : Dir := { kind := .Macro, name := 1, id := 8 }
+private def macX : Dir := { kind := .Macro, explicit := true, name := 1, id := 9 }
 
 example : specWhere [req, get, url] body = .under 0 := by decide
 example : specWhere [body, req, get, url] get = .under 3 := by decide
-example : specWhere [body, req, get, url] getP = .under 3 := by decide
-example : hoists url getP = true ∧ hoists url get = false := by decide
+example : admitsDir url getP = false ∧ admitsDir url get = true ∧ admitsDir mac getP = true := by decide
+/-- the URL does not admit a path-bearing method: the walk goes on to the top level -/
+example : specWhere [body, req, get, url] getP = .top := by decide
+/-- ... or to an enclosing MACRO -/
+example : specWhere [body, req, get, url, mac] getP = .under 4 := by decide
 example : specWhere [body, req, get, url] ty = .top := by decide
 example : specWhere [body, req, get, urlX] ty = .nowhere := by decide
+example : specWhere [body, req, get, urlX] getP = .nowhere := by decide
+example : specErr [body, req, get, urlX] ty = .incorrectContext 7 := by decide
+example : specErr [body, req, get, urlX] getP = .pathMethodInExplicit 5 := by decide
 example : specWhere [] body = .nowhere := by decide
 
-/-- URL, GET, Request, Body, then a path-bearing GET: the second GET is hoisted to top level -/
+/-- URL, GET, Request, Body, then a path-bearing GET: no open directive admits the second GET, the walk reaches
+    the root and it becomes a second top-level directive -/
 example : resolve [.dir url, .dir get, .dir req, .dir body, .dir getP] =
     .ok [.node url [.node get [.node req [.node body []]]], .node getP []] := by decide +kernel
+/-- URL then a path-bearing GET: two roots -/
+example : resolve [.dir url, .dir getP] = .ok [.node url [], .node getP []] := by decide +kernel
 /-- the same with a path-less GET: it becomes a sibling of the first GET under the URL -/
 example : resolve [.dir url, .dir get, .dir req, .dir body, .dir get] =
     .ok [.node url [.node get [.node req [.node body []]], .node get []]] := by decide +kernel
+/-- inside a MACRO the path-bearing method leaves the URL but stays in the macro -/
+example : resolve [.dir macX, .dir url, .dir get, .dir getP, .close] =
+    .ok [.node macX [.node url [.node get []], .node getP []]] := by decide +kernel
+example : resolve [.dir mac, .dir url, .dir getP] =
+    .ok [.node mac [.node url [], .node getP []]] := by decide +kernel
 /-- parenthesised URL: a TYPE inside it has no place; closing it first gives two top-level directives -/
 example : resolve [.dir urlX, .dir get, .dir ty] = .error (.incorrectContext 7) := by decide +kernel
 example : resolve [.dir urlX, .dir get, .close, .dir ty] =
     .ok [.node urlX [.node get []], .node ty []] := by decide +kernel
 /-- a path-bearing method inside a parenthesised URL is rejected -/
 example : resolve [.dir urlX, .dir getP] = .error (.pathMethodInExplicit 5) := by decide +kernel
+example : resolve [.dir urlX, .dir get, .dir req, .dir getP] = .error (.pathMethodInExplicit 5) := by decide +kernel
 /-- ")" without "(" -/
 example : resolve [.close] = .error .noExplicitToClose := by decide +kernel
 example : resolve [.dir url, .dir get, .close] = .error .noExplicitToClose := by decide +kernel
